@@ -339,6 +339,24 @@ def judge_single(env, a, xs, part, out):
         "Unit**2": lambda: q.units**2, "Unit**0.5": lambda: q.units**0.5, "1/Unit": lambda: 1 / q.units,
         "Unit*Unit(self)": lambda: q.units * q.units, "x*Unit": lambda: arr() * m.units,
     }
+    # products with a unit-less or a dimensional second factor (x * 2 and x * m are refused: so is every function that multiplies),
+    # and powers whose exponent is an array
+    w = lambda: np.arange(1.0, len(xs) + 1)  # noqa: E731
+    wm = lambda: unyt_array(np.arange(1.0, len(xs) + 1), "m")  # noqa: E731
+    prods = {"np.dot": np.dot, "np.inner": np.inner, "np.outer": np.outer, "np.kron": np.kron, "np.vdot": np.vdot, "np.convolve": np.convolve,
+             "np.correlate": np.correlate, "np.tensordot": lambda p_, q_: np.tensordot(p_, q_, 1), "np.matmul": np.matmul,
+             "np.einsum(i,i)": lambda p_, q_: np.einsum("i,i", p_, q_), "np.einsum(i,j->ij)": lambda p_, q_: np.einsum("i,j->ij", p_, q_),
+             "np.linalg.outer": np.linalg.outer, "np.multiply.outer": np.multiply.outer, "np.trapezoid": np.trapezoid}
+    for fname, f_ in prods.items():
+        must[f"{fname}(x,bare)"] = (lambda f_=f_: f_(arr(), w()))
+        must[f"{fname}(bare,x)"] = (lambda f_=f_: f_(w(), arr()))
+        must[f"{fname}(x,m)"] = (lambda f_=f_: f_(arr(), wm()))
+    must.update({"x.dot(bare)": lambda: arr().dot(w()), "x.dot(m)": lambda: arr().dot(wm()), "np.trapezoid(x)": lambda: np.trapezoid(arr()),
+                 "np.trapezoid(x,dx=m)": lambda: np.trapezoid(arr(), dx=unyt_quantity(2.0, "m")),
+                 "q**[2,2]": lambda: q ** np.array([2, 2]), "q**[2.,2.,2.]": lambda: q ** np.array([2.0, 2.0, 2.0]), "np.power(q,[3,3])": lambda: np.power(q, [3, 3]),
+                 "x**[2,..]": lambda: arr() ** np.full(len(xs), 2), "np.power(x,[0.5,..])": lambda: np.power(arr(), np.full(len(xs), 0.5)),
+                 "np.float_power(x,2)": lambda: np.float_power(arr(), 2), "q**quantity(2)": lambda: q ** unyt_quantity(2.0, "dimensionless"),
+                 "np.cross(x,bare)": lambda: np.cross(arr()[:3], w()[:3]) if len(xs) >= 3 else (_ for _ in ()).throw(ValueError())})
     for nm, fn in must.items():
         part.ev()
         st_, r = _call(fn)
